@@ -137,6 +137,10 @@ def case_sub(spec):
     probs = []
     n = 0
     cands = []
+    if spec["seed"] % 2:
+        # the parent is used first (enumerated, counted); sub-tilings derived afterwards must not inherit anything from that
+        list(t.generate_populated_positions())
+        t.count_populated_positions()
     for _ in range(spec["n"]):
         w = R.choice([1, W, max(1, W // 2), R.randrange(1, W + 1)])
         h = R.choice([1, H, max(1, H // 2), R.randrange(1, H + 1)])
@@ -176,7 +180,15 @@ def make_image(mode, w, h, seed):
         return rng.uniform(0.1, 2.0, (h, w, 3)).astype(np.float16)
     dt = DT[mode]
     if np.dtype(dt).kind == "f":
-        return rng.normal(size=(h, w)).astype(dt)
+        a = rng.normal(size=(h, w)).astype(dt)
+        k = rng.random()
+        if k < 0.15:
+            a[:] = np.inf * rng.choice([-1, 1])  # defined everywhere, finite nowhere
+        elif k < 0.35:
+            # a saturated block and a sliver: some tile may see only non-finite image pixels
+            a[: max(1, h // 2), : max(1, w // 3)] = np.inf
+            a[:, -1] = -np.inf
+        return a
     hi = min(np.iinfo(dt).max, 30000)
     return rng.integers(1, hi, (h, w)).astype(dt)
 
